@@ -354,5 +354,5 @@ func (w *muxWorld) abandon() {
 }
 
 func init() {
-	register(&PropDef{ID: "C07", Quick: 5000, Thorough: 1000000, Profiles: []ProfileDef{{Name: "close", Share: 1, Sc: scC07}}})
+	register(&PropDef{ID: "C07", Quick: 12000, Thorough: 1000000, Profiles: []ProfileDef{{Name: "close", Share: 1, Sc: scC07}}})
 }
